@@ -32,6 +32,8 @@ func runC13(c *Check, tier string) {
 	ruleTaintClearDeletes(c, "R13j")
 	useFamily(c, "R13g", famExec, 10)
 	shareRule(c, "R13h", "the output hash describes the outputs in their final state: the bin output is made executable before the registry call that hashes and stores the outputs (same obligation as R06i), so a re-execution that reproduces the same outputs reproduces the same hash", 1, "R06i", func(sub *Check) { ruleR06i(sub) }, nil)
+	// round 7: a no-cache target (or any target of a cache-disabled build) that executed is never restored over
+	shareRule(c, "R13k", "the completion function marks an executed target as materialised on every path to success, cached or not (same obligation as R03h): the dependency loader neither restores a stored record over what was just built nor runs it again", 1, "R03h", func(sub *Check) { ruleExecutedCountsAsLoaded(sub, "R03h") }, nil)
 }
 
 // ruleRecordCacheIndependent: nothing that is stored into the (hashed) output
